@@ -253,7 +253,7 @@ PROPS = {
     },
     "C14": {
         "runs": [
-            {"harness": "H_C14_canonical", "quick": {"n": 1}, "thorough": {"n": 2, "v2sym": 1}},
+            {"harness": "H_C14_canonical", "quick": {"n": 1}, "thorough": {"n": 2}},
             {"harness": "H_C14_invalid", "reach": ["valid", "invalid"], "quick": {"n": 3}, "thorough": {"n": 4}},
             {"harness": "H_C12_independent", "stress": 20000, "quick": {"preempt": 2}, "thorough": {"preempt": 3}},
             {"harness": "H_C14_update"},
@@ -261,7 +261,7 @@ PROPS = {
         "bounds": {"quick": "templates {K1:V1,K2:7}, {K1:{K2:V1}}, [V1,7] with symbolic keys (<= 1 printable byte, distinct, no escapes) and V1 in digit/string/true|false|null/{}|[]; "
                             "one symbolic white-space byte at any one of 7 structural gaps; default, unsorted-tab-indent and width-80 configurations; string, []byte and Go-value forms; "
                             "invalid input: every byte string <= 3 bytes, MatchJSON and MatchStandaloneJSON",
-                   "thorough": "keys <= 2 bytes, V2 symbolic too; every byte string <= 4 bytes"},
+                   "thorough": "keys <= 2 bytes; every byte string <= 4 bytes (keys <= 2 bytes together with a symbolic V2 did not finish in 35 minutes and is not claimed)"},
         "assumptions": COMMON_ASSUME + ["json.Marshal of a Go value is summarised: a value whose standard encoding is the document Doc marshals to Doc (vxrt.JSONValue), Doc without insignificant white space",
                                         "tidwall/pretty and tidwall/gjson are executed from their SSA (not stubbed)"],
         "outside": ["keys with escapes and duplicate keys (pretty's comparator enters encoding/json / ParseFloat)", "documents larger than the templates", "Go values beyond the Marshal summary (reflection)"],
